@@ -334,7 +334,12 @@ pub fn check_pair(name: &str, sugar: &str, plain: &str, dir: &Path, case: &Value
                         diff.push(format!("sugared x0, expansion x{v}: {k}"));
                     }
                 }
-                let id = diff.first().and_then(|d| d.split(": ").nth(1)).and_then(|s| s.split_whitespace().next()).unwrap_or("").to_string();
+                // Every differing report id is part of the signature, so that a recorded
+                // difference does not hide a new one on the same pair.
+                let mut ids: Vec<String> = diff.iter().filter_map(|d| d.split(": ").nth(1)).filter_map(|s| s.split_whitespace().next()).map(String::from).collect();
+                ids.sort();
+                ids.dedup();
+                let id = ids.join("+");
                 out.push(Violation {
                     signature: format!("unfaithful/{name}/{id}"),
                     what: format!("the findings of `{sugar}` differ from those of its hand-written expansion"),
